@@ -140,6 +140,12 @@ def run(prog, rep):
                              (info.get("cond") and info["cond"][0] == "bin" and info["cond"][1] == st.name and {info["cond"][2], info["cond"][3]} == set(st.args))]
                     if loops:
                         why = "termination test of a fixed-point loop (monotone iteration: the limit is the pointwise fixed point)"
+                    tterm = st.term if isinstance(st.term, tuple) else (("bin", st.name, st.args[0], st.args[1]) if len(st.args or []) == 2 else None)
+                    for lid_, info_ in s.loops.items():
+                        # the same test as the exit condition of a `loop { if cur == prev { return cur } .. }`
+                        if lid_ in (st.loops or ()) and tterm is not None and sem.stabilisation_test(tterm, st.name == "==", lid_, info_.get("vars", {})) \
+                                and any(x.kind in ("return", "break") and any(c[0] == "if" and c[1] == tterm and bool(c[2]) == (st.name == "==") for c in x.pc) for x in s.sites):
+                            why = "termination test of a fixed-point loop (monotone iteration: the limit is the pointwise fixed point)"
                 elif l == "is_empty":
                     uses = [c for x in s.sites for c in x.pc if c[0] == "if" and any(y == st.term for y in [c[1]] + list(subterms(c[1])))]
                     in_loop = bool(st.loops)
